@@ -64,7 +64,7 @@ def run(ctx):
     wv, prog = T("proj", (seg, 1)), T("proj", (seg, 2))
     hrp = T("proj", (seg, 0))
     n = 0
-    for L in (2, 3, 19, 20, 21, 31, 32, 33, 39, 40):
+    for L in (range(2, 41) if ctx.thorough else (2, 3, 19, 20, 21, 31, 32, 33, 39, 40)):
         ev.assumptions = {isp: False, isb: False, iss: True, iss2: True, tm.cmp("in", hrp, (b"bc", b"tb", b"bcrt")): True}
         ev.bind = {tm.length(prog): L}
         kind, val = rules.outcome(ev.run(fi))
